@@ -293,3 +293,78 @@ Example tags_total_nonvacuous :
                 /\ exists a, tr_album tr = Some a /\ al_num_tracks a = None /\ al_mbid a = None
                              /\ al_name a = Some [65].
 Proof. vm_compute. split; [reflexivity|]. eexists. repeat split. eexists. repeat split. Qed.
+
+(* ------------------------------------------------------------------ convert_taglist *)
+
+Lemma conv_value_typed k g :
+  gvalue_typed k g = true -> forallb (value_typed k) (conv_value g) = true.
+Proof.
+  destruct g; cbn [gvalue_typed conv_value]; intros H; try reflexivity.
+  - cbn. apply andb_true_iff in H. destruct H as [H _]. apply andb_true_iff in H.
+    destruct H as [H _]. rewrite H. reflexivity.
+  - cbn. rewrite H. reflexivity.
+  - destruct (valid_date y m d); [|reflexivity]. cbn.
+    apply key_eqb_eq in H. subst k. reflexivity.
+  - cbn. apply key_eqb_eq in H. subst k. reflexivity.
+  - cbn. apply andb_true_iff in H. destruct H as [H _]. apply andb_true_iff in H.
+    destruct H as [H _]. rewrite H. reflexivity.
+Qed.
+
+Lemma flat_conv_typed k vs :
+  forallb (gvalue_typed k) vs = true -> forallb (value_typed k) (flat_map conv_value vs) = true.
+Proof.
+  induction vs as [|g t IH]; cbn; [reflexivity|]. rewrite andb_true_iff. intros [Hg Ht].
+  rewrite forallb_app, (conv_value_typed k g Hg), (IH Ht). reflexivity.
+Qed.
+
+Lemma typed_b_cons k l t :
+  typed_b ((k, l) :: t) = negb (is_nil l) && forallb (value_typed k) l && typed_b t.
+Proof. reflexivity. Qed.
+
+(* what convert_taglist produces for GStreamer-typed input is typed in the sense of
+   tags_total: non-empty value lists of the right type *)
+Lemma convert_taglist_typed raw : gst_typed_b raw = true -> typed_b (convert_taglist raw) = true.
+Proof.
+  induction raw as [|[k vs] rest IH]; cbn [gst_typed_b forallb fst snd convert_taglist]; [reflexivity|].
+  rewrite andb_true_iff. intros [Hk Hr].
+  pose proof (flat_conv_typed k vs Hk) as Hv.
+  destruct (flat_map conv_value vs) as [|v0 vals] eqn:E; [apply IH; exact Hr|].
+  rewrite typed_b_cons, Hv. cbn [is_nil negb andb]. apply IH. exact Hr.
+Qed.
+
+(* the whole path scanner taglist -> dict -> Track: never raises, every field valid *)
+Theorem taglist_to_track_total_lemma :
+  forall (uuid : str -> option str) (raw : list (tagkey * list gvalue)),
+    gst_typed_b raw = true ->
+    exists tr, convert true uuid (convert_taglist raw) = Ok tr /\ track_valid uuid tr.
+Proof.
+  intros uuid raw H. apply tags_total_lemma. apply convert_taglist_typed. exact H.
+Qed.
+
+(* a GLib.Date that datetime.date accepts always yields a representable date: it is never
+   among the values left out *)
+Lemma digit_ok n : 0 <= n <= 9 -> is_digit (48 + n) = true.
+Proof. intros H. unfold is_digit. lia. Qed.
+
+Lemma mod10_digit x : 0 <= x mod 10 <= 9.
+Proof. pose proof (Z.mod_pos_bound x 10). lia. Qed.
+
+Theorem iso_date_ok_lemma :
+  forall y m d, valid_date y m d = true -> date_ok (iso_date y m d) = true.
+Proof.
+  intros y m d H. unfold valid_date in H.
+  assert (Hy : 1 <= y <= 9999) by lia. assert (Hm : 1 <= m <= 12) by lia.
+  assert (Hd : 1 <= d <= 31).
+  { unfold days_in_month in H. destruct (m =? 2); [destruct (leap y)|destruct ((m =? 4) || (m =? 6) || (m =? 9) || (m =? 11))]; lia. }
+  clear H. unfold iso_date, pad4, pad2, date_ok, DASH. cbn [app].
+  rewrite !digit_ok; [reflexivity| | | | | | | |]; clear - Hy Hm Hd.
+  all: try apply mod10_digit.
+  all: split; [apply Z.div_pos; lia|apply Z.lt_succ_r; apply Z.div_lt_upper_bound; lia].
+Qed.
+
+Example taglist_example :
+  convert_taglist [(KDate, [GDate 2014 2 30; GDate 2016 2 29]); (KTitle, [GDropped]);
+                   (KTrackNumber, [GUInt 7]); (KDateTime, [GDateTime [50; 48; 49; 52]])]
+  = [(KDate, [VStr (iso_date 2016 2 29)]); (KTrackNumber, [VInt 7]); (KDateTime, [VStr [50; 48; 49; 52]])]
+  /\ iso_date 2016 2 29 = [50; 48; 49; 54; 45; 48; 50; 45; 50; 57].
+Proof. vm_compute. split; reflexivity. Qed.
